@@ -29,7 +29,7 @@ func c18build(depth int) (string, []c18member) {
 	gen = func(name string, path []string, d int) string {
 		var sb strings.Builder
 		sb.WriteString(`(package "` + name + `" { `)
-		for _, v := range []string{"Val", "val", "_val"} {
+		for _, v := range []string{"Val", "val", "_val", "Éval", "éval", "Ｚed", "ｚed", "Ωm", "ωm"} {
 			counter++
 			sb.WriteString(fmt.Sprintf("(def %s %d) ", v, counter)) // def, not :=, which would update a same-named member of the enclosing package
 			members = append(members, c18member{path: append(append([]string{}, path...), v), kind: "value", value: counter, pkgs: len(path)})
